@@ -1525,7 +1525,10 @@ Fixpoint c19_monitor_from (i : Z) (held : bool) (tip : Z) (dl : list Z) (ph : li
           if (dt =? mt) && (dt =? at_) && (sh =? 1) && (du =? mu) && (su =? 1) && (dp =? mp) then next held tip
           else Some (i, [903])
       | SStored, [_; x] => if x =? -2 then Some (i, [903]) else next held tip
-      | SAnnounced, _ :: l => if contiguous_from 1 l then next held tip else Some (i, [904])
+      | SAnnounced, _ :: l =>
+          (* blocks processed behind a held tx are announced after the step that delivered them: the announced
+             heights are where the node's tip is *)
+          if contiguous_from 1 l then next held (Z.max tip (zlen l / 2)) else Some (i, [904])
       | SBlocks _, [_; n] => next held (tip + n)
       | STxBlock t _, [_; _; ann; _] =>
           c19_monitor_from (i + 1) held (tip + ann) dl (if ann =? 1 then ph_confirm t ph else ph) ops' tr'
